@@ -7,6 +7,7 @@
 #include <nlohmann/json.hpp>   // must come first (clang + util/variables.h, see HARNESS-GUIDE)
 #include "../common/verif.h"
 #include <tbox/base/json.hpp>
+#include <tbox/base/log_impl.h>
 #include <tbox/jsonrpc/proto.h>
 #include <tbox/jsonrpc/protos/header_stream_proto.h>
 #include <tbox/jsonrpc/protos/raw_stream_proto.h>
@@ -40,6 +41,22 @@ inline std::string header(uint16_t magic, uint32_t len) {
 }
 // frame a JSON text the way a peer of proto p would
 inline std::string frameText(int p, const std::string &text) { return p == P_HEADER ? header(kMagic, (uint32_t)text.size()) + text : text; }
+
+// Traffic logging: Proto::setLogEnable(true) makes every proto write one LogTrace line per frame sent / received — but the log front
+// end formats a line only while at least one output channel is registered.  TrafficLog registers a channel for the life of the object
+// that swallows the lines (it reads every byte of the text, so a bad text pointer / length is an ASan report, and counts them).
+struct TrafficLog {
+  uint32_t id = 0; uint64_t lines = 0, bytes = 0; unsigned sum = 0;
+  TrafficLog() { id = LogAddPrintfFunc(&TrafficLog::sink, this); }
+  ~TrafficLog() { LogRemovePrintfFunc(id); }
+  TrafficLog(const TrafficLog &) = delete;
+  static void sink(const LogContent *c, void *p) {
+    TrafficLog *t = static_cast<TrafficLog *>(p);
+    ++t->lines; t->bytes += c->text_len;
+    for (uint32_t i = 0; c->text_ptr && i < c->text_len; ++i) t->sum += (unsigned char)c->text_ptr[i];
+  }
+  static void enable(Proto &p, const char *label) { p.setLogEnable(true); p.setLogLabel(label); }
+};
 
 // ---------------------------------------------------------------------------------------------- decoded events
 struct Ev {
